@@ -31,14 +31,15 @@ var semPre = []string{"-alpha", "-alpha.1", "-rc.1", "-rc1", "-0", "-beta.2", "-
 // marker tables: built from the parsers, every spelling is accepted on the
 // tree the harness was developed against (checked by TestSelfMarkers).
 var c03Pre = map[string][]string{
-	"alpine":     {"_alpha", "_beta", "_pre", "_rc", "_alpha1", "_beta2", "_pre3", "_rc1"},
-	"alpm":       {"alpha", "beta", "pre", "rc", "alpha1", "beta2", "pre3", "rc1", "RC1", "Beta2", "ALPHA", "a", "Rc"},
-	"apache":     {"-alpha", "-beta", "-M1", "-RC1", "-rc1", "-SNAPSHOT", "-dev", "-beta2", "-milestone2", "-ALPHA", "-Beta1", "-snapshot", "-m2", "-Milestone3", "-DEV"},
-	"cargo":      semPre,
-	"composer":   {"-alpha1", "-beta2", "-RC1", "-rc1", "a1", "b2", "RC3", "-dev", "-alpha", "-beta.1"},
-	"conan":      {"-alpha", "-rc.1", "-beta.2", "-0", "-ALPHA", "-RC.1"},
-	"debian":     {"~rc1", "~beta1", "~", "~~", "~alpha", "~RC1", "~Beta"},
-	"gem":        {".rc1", ".pre", ".a", "-rc1", "-alpha", ".beta2", ".rc", ".RC1", ".PRE", "-Alpha"},
+	"alpine":   {"_alpha", "_beta", "_pre", "_rc", "_alpha1", "_beta2", "_pre3", "_rc1"},
+	"alpm":     {"alpha", "beta", "pre", "rc", "alpha1", "beta2", "pre3", "rc1", "RC1", "Beta2", "ALPHA", "a", "Rc"},
+	"apache":   {"-alpha", "-beta", "-M1", "-RC1", "-rc1", "-SNAPSHOT", "-dev", "-beta2", "-milestone2", "-ALPHA", "-Beta1", "-snapshot", "-m2", "-Milestone3", "-DEV"},
+	"cargo":    semPre,
+	"composer": {"-alpha1", "-beta2", "-RC1", "-rc1", "a1", "b2", "RC3", "-dev", "-alpha", "-beta.1"},
+	"conan":    {"-alpha", "-rc.1", "-beta.2", "-0", "-ALPHA", "-RC.1"},
+	"debian":   {"~rc1", "~beta1", "~", "~~", "~alpha", "~RC1", "~Beta"},
+	"gem":      {".rc1", ".pre", ".a", "-rc1", "-alpha", ".beta2", ".rc", ".RC1", ".PRE", "-Alpha", "-1", "-0", "-10", "-0.1", "-1.rc", "-2.3"}, // '-' is '.pre.'
+
 	"gentoo":     {"_alpha", "_beta", "_pre", "_rc", "_alpha1", "_beta2", "_pre3", "_rc1"},
 	"github":     {"-alpha", "-beta.1", "-rc.2", ".rc1", "-SNAPSHOT", "-dev", "-rc1", "-ALPHA", "-RC.1", "-Beta2", "-snapshot", ".DEV"},
 	"golang":     semPre,
@@ -59,7 +60,7 @@ var c03Post = map[string][]string{
 	"gentoo":   {"_p1", "_p", "-r1", "-r2", "_p2"},
 	"maven":    {"-sp", "-sp1", "-1", "-2", "-sp-1", "-SP", "-Sp1"},
 	"nuget":    {".1", ".2", ".10"},
-	"pypi":     {".post1", "post1", ".rev1", ".r1", ".post0"},
+	"pypi":     {".post1", "post1", ".rev1", ".r1", ".post0", ".post1.dev1", ".post0.dev0", "r1dev1"}, // a dev release of a post-release is still after the release
 	"rpm":      {"-1", "^git1", "-2", "^1", "-1.el8"},
 }
 
